@@ -298,6 +298,14 @@ fn main() {
                 rep.count("gated_executions");
                 if stalled || consumed != script.len() {
                     rep.count("gate_scripts_stalled_or_incomplete");
+                    // the abandoned script says nothing about the schedule that was taken, but the query it ran to completion
+                    // is an execution like any other: its result is judged, and a stall (10 s) ends the scripts of this scenario
+                    if !judge(&mut rep, idx, &sc, &o2, &b2, &c2, &format!("gate {:?} (abandoned)", script), &ctx) {
+                        good = false;
+                    }
+                    if stalled {
+                        break;
+                    }
                     continue;
                 }
                 rep.seen("order_signatures", order_signature(&ev, "store.cmd.begin"));
